@@ -110,6 +110,13 @@ let handle (line : string) : string =
        | None -> "OUT-OF-FUEL"
        | Some None -> "F"
        | Some (Some p) -> if c = "S64" then "T" else "T " ^ hex_of_z p)
+  | "TA" :: mv :: qb :: recs ->
+      (* model of the bit-packed array of lm/trie.cc: record i occupies bits [i*tb, (i+1)*tb), tb = RequiredBits(max_vocab) + payload bits *)
+      let max_vocab = z_of_hex mv and quant = z_of_hex qb in
+      let n = List.length recs in
+      let size = bitpacked_base_size (z_of_int n) max_vocab quant in
+      let vals = List.map (fun r -> match String.split_on_char ':' r with [p; _] -> hex_of_z (z_of_hex p) | _ -> "?") recs in
+      String.concat " " ((hex_of_z size ^ " guard-ok") :: vals)
   | _ -> "?"
 
 let () = each_line handle
